@@ -21,6 +21,9 @@ var spinTable = []int{0, 300, 1500, 6000, 20000, 60000, 150000, 400000}
 
 var spinSink uint64
 
+// stuckAfter: a repetition normally takes well under a second.
+const stuckAfter = 25 * time.Second
+
 func burn(n int) {
 	x := uint64(n) | 1
 	for i := 0; i < n; i++ {
@@ -68,7 +71,7 @@ func (in *Instance) ExecuteFree(rep int) (obs *Obs, stuck bool) {
 	}()
 	select {
 	case <-done:
-	case <-time.After(60 * time.Second):
+	case <-time.After(stuckAfter):
 		return p.obs, true
 	}
 	p.finish()
@@ -129,7 +132,7 @@ func runRace(job *Job) *RaceOut {
 			rs.Reps++
 			var vs []Violation
 			if stuck {
-				vs = append(vs, Violation{Kind: "deadlock", Signature: "deadlock|free-run-stuck", Detail: fmt.Sprintf("repetition %d did not finish within 60 s", rep)})
+				vs = append(vs, Violation{Kind: "deadlock", Signature: "deadlock|free-run-stuck", Detail: fmt.Sprintf("repetition %d did not finish within %s: the block executor and / or a handler goroutine are blocked for good (real goroutines, real sync primitives)", rep, stuckAfter)})
 			} else {
 				outcomes[Outcome(nil, obs)] = true
 				vs = in.Judge(nil, obs)
@@ -190,7 +193,18 @@ func (r *RaceReport) InRepo() bool { return r.A.Loc != "" && r.B.Loc != "" }
 // Signature is kind + the pair of code locations (functions; the line numbers, which depend on
 // which statement of the function happened to collide, are in the report text).
 func (r *RaceReport) Signature() string {
-	l := []string{funcOnly(locOrTop(r.A)), funcOnly(locOrTop(r.B))}
+	// reads before writes, then by name: "map-race|read <func>|write <receiver type>": which of the
+	// writers of the same structure happened to collide with the reader depends on timing only.
+	side := func(a RaceAccess) string {
+		f := funcOnly(locOrTop(a))
+		if a.Op == "write" {
+			if i := strings.Index(f, ")."); i > 0 {
+				f = f[:i+1]
+			}
+		}
+		return a.Op + " " + f
+	}
+	l := []string{side(r.A), side(r.B)}
 	sort.Strings(l)
 	kind := "data-race"
 	if r.IsMapRace() {
